@@ -399,8 +399,20 @@ def run(ctx):
 
 META = {
     "level": "proof",
-    "text": "",
-    "note": "",
+    "text": "Coq theorems over an executable model of EngineImpl::run (sub-rounds, solve, Timer::execute_all before handle_ended_actions, "
+            "CpuCas01::sleep clamp, double_equals pop of the action heap) for all programs and all run prefixes: the clock never decreases and "
+            "changes only in solve (C03_clock_monotone, C03_clock_changes_only_in_solve); solve stops at the earliest pending timer/kill-time/"
+            "deadline/action date (C03_no_date_jumped_over); every logged observation has t0 <= t1, the log is time-ordered, and every "
+            "undisturbed sleep_for(d) returns at t1 with t1 <= t0 + max(d, precision) < t1 + precision, sleep_for(d<=0) at once "
+            "(C03_sleep_exact_and_log_ordered, C03_sleep_exact: exact up to the engine's own timing precision, never late). The model is tied "
+            "to the rebuilt library by exact comparison of per-actor logs (call/return clocks, on_exit, terminations, exec start/finish) of "
+            "generated programs on dyadic durations incl. 0, sub-precision and coinciding dates; an oracle evaluates the property's "
+            "equalities on every implementation log.",
+    "note": "Time is integer ticks (any common denominator), so exec durations are inputs (flops/speed computed by the generator, each exec "
+            "alone on its host). Kill-time and timer firing are proved as step theorems (date never jumped over, fired when date <= clock), "
+            "not as a log-level theorem. The ghost flag 'dist' (suspension hit the sleeping actor) is model state; the oracle uses a static "
+            "over-approximation of it. Tie order inside one wake-up batch (boost heaps) is not modelled: such cases are flagged and judged by "
+            "the oracle only. Not modelled: comms/io/mess, host failures, dynamic actor creation. Known finding: resume() race (see KNOWN_FINDINGS).",
     "technique": "Coq proof (invariants of an executable engine model over all programs and rounds) + extracted-model differential correspondence + oracle on implementation logs",
-    "claimed": False,
+    "claimed": True,
 }
